@@ -68,10 +68,73 @@ def _key_for(x: dict) -> str:
     return f"{b}:dark-atoms:{vr}" + (":reorder" if c["reorder"] else "") + (":leakage" if c["dim"] == 3 else "")
 
 
+def _judge(ctx: Ctx, results: list[dict], preds: dict | None, n_scen: int) -> dict:
+    st = {"runs": 0, "scenario_runs": n_scen, "violations": 0, "worst_margin_tight": 0.0, "worst_margin_loose": 0.0, "min_bits_p": 1.0, "drift": 0,
+          "by_mode": {}, "by_good_atoms": {}, "leakage_runs": 0, "noise_runs": 0}
+    for x in results:
+        c, rec, o = x["case"], x["rec"], x["obs"]
+        n = c["phys"]["n"]
+        st["runs"] += 1
+        good = sum(1 for d in c["dark"] if not d) if c["spe"] else n
+        if not c.get("is_ref"):
+            st["by_mode"][c["mode"]] = st["by_mode"].get(c["mode"], 0) + 1
+            st["by_good_atoms"][str(good)] = st["by_good_atoms"].get(str(good), 0) + 1
+            st["leakage_runs"] += int(c["dim"] == 3)
+            st["noise_runs"] += int(bool(c.get("extra_noise")))
+        if x["verdict_res"] == "ok":
+            mk = "worst_margin_tight" if x["ref_kind"] != "dense" or c["backend"] == "sv" or good <= 1 else "worst_margin_loose"
+            st[mk] = max(st[mk], rec.get("margin", 0.0))
+            st["min_bits_p"] = min(st["min_bits_p"], rec.get("bits_pmin", 1.0))
+        ctx.case(("dark", c["phys"]["id"], c["backend"], c["rho"], c["optp"], c["reorder"], c["dark"] if c["spe"] else "reduced", c["dim"], c["mode"], c.get("extra_noise")),
+                 nontrivial=bool(c["spe"] and any(c["dark"])),
+                 sample={"backend": c["backend"], "register_order": c["rho"], "optimiser_returns": c["optp"], "reorder": c["reorder"], "dark": c["dark"], "levels": c["dim"],
+                         "mode": c["mode"], "oracle": x["ref_kind"], "margin": rec.get("margin"), "verdict": x["verdict_res"]} if st["runs"] % 131 == 1 else None)
+        if c.get("force", True) and c["reorder"] and c["backend"] == "mps" and o["outcome"] == "ok" and o["hooks"].get("perm") != c["optp"]:
+            raise MachineryError(f"forced permutation {c['optp']} not taken: mps_new.perm = {o['hooks'].get('perm')}")
+        if x["verdict_res"] != "ok":
+            st["violations"] += 1
+            ctx.violation(
+                _key_for(x),
+                f"{c['backend']} run with dark atoms {c['dark']} ({good} well prepared, {c['dim']} levels, mode {c['mode']}, noise {c.get('extra_noise')}) reports {x['verdict_res']} "
+                f"(site level: {x['verdict_full']}; drive labels at sites {rec.get('site_drive')}, interaction labels {rec.get('site_imat')}; register order {c['rho']}, "
+                f"optimiser output {c['optp']}, reorder={c['reorder']}; outcome {o['outcome'][:90]}; error / budget = {rec.get('margin'):.3g} against the {x['ref_kind']} oracle)",
+                {"case": c, "observed": {k: o.get(k) for k in ("outcome", "atom_order", "occupation", "energy", "hooks")},
+                 "how": "harness.drivers._qorder.run_case(case); oracle: run_case(tight_ref_case(case, 'reduced')[1]) and reference(phys, dark)"},
+            )
+        elif x["verdict_full"] != "ok" and c["mode"] != "handset-pulser":
+            ctx.model_drift(f"{c['id']}: site-level labels incoherent ({x['verdict_full']}) but every reported value is right")
+        if preds is not None and not c.get("is_ref"):
+            p = preds.get(Q.scen_key(Q.scen_of(c)))
+            if p is None:
+                raise MachineryError(f"no TLC prediction for scenario {Q.scen_of(c)}")
+            diffs = []
+            if (p["outcome"] == "ok") != (o["outcome"] == "ok"):
+                diffs.append(f"outcome model={p['outcome']} real={o['outcome'][:60]}")
+            elif c["backend"] == "mps" and p["outcome"] == "ok" and rec.get("site_drive") is not None:
+                pd_ = [h[0] for h in p["ham"]]
+                if pd_ != rec["site_drive"]:
+                    diffs.append(f"drive labels at sites model={pd_} real={rec['site_drive']}")
+                wp = [not bool(d) for d in (o["hooks"].get("dark") or [])]
+                if wp != p["wp"]:
+                    diffs.append(f"well_prepared filter model={p['wp']} real={wp}")
+            if not diffs and (p["verdict"] == "ok") != (x["verdict_full"] == "ok") and c["mode"] == "handset":
+                diffs.append(f"verdict model={p['verdict']} real={x['verdict_full']}")
+            if diffs:
+                st["drift"] += 1
+                if st["drift"] <= 3:
+                    ctx.model_drift(f"{c['id']} {Q.scen_of(c)}: " + "; ".join(diffs))
+    return st
+
+
 def run(ctx: Ctx) -> None:
     ctx.level = "model_checking"
     workers = int(os.environ.get("VERIF_TLC_WORKERS", "16"))
     rng = random.Random(ctx.seed * 1000003 + 2525)
+    if ctx.replay:                                   # ./check C25 --replay <file>: re-run that one scenario
+        case = json.loads(open(ctx.replay).read())["replay"]["case"]
+        ctx.coverage["rule"] = "replay of one recorded scenario"
+        ctx.log(f"replay: {_judge(ctx, Q.replay_cases(ctx, [case], policy='reduced', name='replayfile', alpha=1e-15), None, 1)}")
+        return
     ctx.assumptions += [
         "QubitOrderFn.tla transcribes init_dark_qubits / _get_interaction_matrix / fill_results padding / permute_results (emu-mps) and init_dark_qubits (emu-sv); the revision the tree follows is observed from hook values and outcomes; every replayed run is compared with the model's prediction (differences => model_drift)",
         "SequenceData with hand-set bad_atoms is built by dataclasses.replace on one obtained from the real PulserData; 'raw' leaves drives and interactions of the marked atoms as they are (the backend has to ignore them), 'handset-pulser' zeroes them as Pulser does, 'pulser-trajectory' lets Pulser draw the mask",
@@ -142,60 +205,7 @@ def run(ctx: Ctx) -> None:
                       "spe": True, "dark": s["dark"], "given": False, "dim": s["dim"], "mode": (modes[i % 4] if n <= 5 or i % 4 != 3 else "handset") if s["dim"] == 2 and extra is None else "handset",
                       "extra_noise": extra, "shots": 1000, "seed": i + 1})
     results = Q.replay_cases(ctx, cases, policy="reduced", name="replay", alpha=alpha)
-    st = {"runs": 0, "scenario_runs": len(cases), "violations": 0, "worst_margin_tight": 0.0, "worst_margin_loose": 0.0, "min_bits_p": 1.0, "drift": 0,
-          "by_mode": {}, "by_good_atoms": {}, "leakage_runs": 0, "noise_runs": 0}
-    for x in results:
-        c, rec, o = x["case"], x["rec"], x["obs"]
-        n = c["phys"]["n"]
-        st["runs"] += 1
-        good = sum(1 for d in c["dark"] if not d) if c["spe"] else n
-        if not c.get("is_ref"):
-            st["by_mode"][c["mode"]] = st["by_mode"].get(c["mode"], 0) + 1
-            st["by_good_atoms"][str(good)] = st["by_good_atoms"].get(str(good), 0) + 1
-            st["leakage_runs"] += int(c["dim"] == 3)
-            st["noise_runs"] += int(bool(c.get("extra_noise")))
-        if x["verdict_res"] == "ok":
-            mk = "worst_margin_tight" if x["ref_kind"] != "dense" or c["backend"] == "sv" or good <= 1 else "worst_margin_loose"
-            st[mk] = max(st[mk], rec.get("margin", 0.0))
-            st["min_bits_p"] = min(st["min_bits_p"], rec.get("bits_pmin", 1.0))
-        ctx.case(("dark", c["phys"]["id"], c["backend"], c["rho"], c["optp"], c["reorder"], c["dark"] if c["spe"] else "reduced", c["dim"], c["mode"], c.get("extra_noise")),
-                 nontrivial=bool(c["spe"] and any(c["dark"])),
-                 sample={"backend": c["backend"], "register_order": c["rho"], "optimiser_returns": c["optp"], "reorder": c["reorder"], "dark": c["dark"], "levels": c["dim"],
-                         "mode": c["mode"], "oracle": x["ref_kind"], "margin": rec.get("margin"), "verdict": x["verdict_res"]} if st["runs"] % 131 == 1 else None)
-        if c.get("force", True) and c["reorder"] and c["backend"] == "mps" and o["outcome"] == "ok" and o["hooks"].get("perm") != c["optp"]:
-            raise MachineryError(f"forced permutation {c['optp']} not taken: mps_new.perm = {o['hooks'].get('perm')}")
-        if x["verdict_res"] != "ok":
-            st["violations"] += 1
-            ctx.violation(
-                _key_for(x),
-                f"{c['backend']} run with dark atoms {c['dark']} ({good} well prepared, {c['dim']} levels, mode {c['mode']}, noise {c.get('extra_noise')}) reports {x['verdict_res']} "
-                f"(site level: {x['verdict_full']}; drive labels at sites {rec.get('site_drive')}, interaction labels {rec.get('site_imat')}; register order {c['rho']}, "
-                f"optimiser output {c['optp']}, reorder={c['reorder']}; outcome {o['outcome'][:90]}; error / budget = {rec.get('margin'):.3g} against the {x['ref_kind']} oracle)",
-                {"case": c, "observed": {k: o.get(k) for k in ("outcome", "atom_order", "occupation", "energy", "hooks")},
-                 "how": "harness.drivers._qorder.run_case(case); oracle: run_case(tight_ref_case(case, 'reduced')[1]) and reference(phys, dark)"},
-            )
-        elif x["verdict_full"] != "ok" and c["mode"] != "handset-pulser":
-            ctx.model_drift(f"{c['id']}: site-level labels incoherent ({x['verdict_full']}) but every reported value is right")
-        if not c.get("is_ref"):
-            p = preds.get(Q.scen_key(Q.scen_of(c)))
-            if p is None:
-                raise MachineryError(f"no TLC prediction for scenario {Q.scen_of(c)}")
-            diffs = []
-            if (p["outcome"] == "ok") != (o["outcome"] == "ok"):
-                diffs.append(f"outcome model={p['outcome']} real={o['outcome'][:60]}")
-            elif c["backend"] == "mps" and p["outcome"] == "ok" and rec.get("site_drive") is not None:
-                pd_ = [h[0] for h in p["ham"]]
-                if pd_ != rec["site_drive"]:
-                    diffs.append(f"drive labels at sites model={pd_} real={rec['site_drive']}")
-                wp = [not bool(d) for d in (o["hooks"].get("dark") or [])]
-                if wp != p["wp"]:
-                    diffs.append(f"well_prepared filter model={p['wp']} real={wp}")
-            if not diffs and (p["verdict"] == "ok") != (x["verdict_full"] == "ok") and c["mode"] == "handset":
-                diffs.append(f"verdict model={p['verdict']} real={x['verdict_full']}")
-            if diffs:
-                st["drift"] += 1
-                if st["drift"] <= 3:
-                    ctx.model_drift(f"{c['id']} {Q.scen_of(c)}: " + "; ".join(diffs))
+    st = _judge(ctx, results, preds, len(cases))
     ctx.coverage["binding_A"] = {**st, "enumerated_by_TLC_up_to_n": n_enum, "sampled_sizes": sorted({s["n"] for s in big})}
     ctx.log(f"binding A: {st}")
     if model_violates and st["violations"] == 0 and not ctx.known_seen:
